@@ -2055,4 +2055,114 @@ theorem numberOfEdges_copy {g : Graph} (hg : g.WF) : g.copy.numberOfEdges = g.nu
 
 end Graph
 
+/-! ### convenience corollaries for `add_nodes_from` / `add_edges_from` -/
+
+namespace Graph
+
+theorem WF_addNodesFrom {g : Graph} (hg : g.WF) (ns : List Int) : (g.addNodesFrom ns).WF := by
+  rw [addNodesFrom_eq]
+  exact WF_addNodesFromData hg _ (fun p hp => by
+    obtain ⟨n, _, rfl⟩ := List.mem_map.1 hp; exact Dict.WF_empty)
+
+theorem mem_nodeList_addNodesFrom (g : Graph) (ns : List Int) (x : Int) :
+    x ∈ (g.addNodesFrom ns).nodeList ↔ x ∈ g.nodeList ∨ x ∈ ns := by
+  rw [addNodesFrom_eq, mem_nodeList_addNodesFromData]; simp [List.map_map, Function.comp_def]
+
+theorem edgeAttrs_addNodesFrom {g : Graph} (hg : g.WF) (ns : List Int) (x y : Int) :
+    (g.addNodesFrom ns).edgeAttrs x y = g.edgeAttrs x y := by
+  rw [addNodesFrom_eq]
+  exact edgeAttrs_addNodesFromData hg _ (fun p hp => by
+    obtain ⟨n, _, rfl⟩ := List.mem_map.1 hp; exact Dict.WF_empty) x y
+
+/-- `add_nodes_from` of fresh distinct labels appends them with empty attribute dicts -/
+theorem addNodesFrom_fresh {g : Graph} (hg : g.WF) (ns : List Int) (hn : (g.nodeList ++ ns).Nodup) :
+    (g.addNodesFrom ns).node.items = g.node.items ++ ns.map (fun n => (n, Dict.empty)) ∧
+    (g.addNodesFrom ns).adj.items = g.adj.items ++ ns.map (fun n => (n, Dict.empty)) := by
+  rw [addNodesFrom_eq]
+  have := addNodesFromData_fresh hg (ns.map (fun n => (n, (Dict.empty : Attrs)))) (fun p hp => by
+    obtain ⟨n, _, rfl⟩ := List.mem_map.1 hp; exact Dict.WF_empty)
+    (by simpa [List.map_map, Function.comp_def] using hn)
+  simpa [List.map_map, Function.comp_def] using this
+
+theorem nodeList_addNodesFrom_fresh {g : Graph} (hg : g.WF) (ns : List Int) (hn : (g.nodeList ++ ns).Nodup) :
+    (g.addNodesFrom ns).nodeList = g.nodeList ++ ns := by
+  unfold nodeList Dict.keys
+  rw [(addNodesFrom_fresh hg ns hn).1]
+  simp [List.map_map, Function.comp_def]
+
+theorem WF_addEdgesFrom {g : Graph} (hg : g.WF) (es : List (Int × Int)) : (g.addEdgesFrom es).WF := by
+  rw [addEdgesFrom_eq]; exact WF_addEdgesFromData hg _
+
+theorem edgeAccum_isSome (es : List (Int × Int × Attrs)) (x y : Int) (o : Option Attrs) :
+    (edgeAccum es x y o).isSome = true ↔ o.isSome = true ∨ ∃ e ∈ es, EMatch e x y := by
+  induction es generalizing o with
+  | nil => simp [edgeAccum]
+  | cons e es ih =>
+    have : edgeAccum (e :: es) x y o =
+        edgeAccum es x y (if EMatch e x y then some ((o.getD Dict.empty).update e.2.2) else o) := rfl
+    rw [this, ih]
+    by_cases hm : EMatch e x y
+    · simp [hm]
+    · simp [hm]
+
+/-- adjacency after `add_edges_from` -/
+theorem mem_nbrs_addEdgesFromData {g : Graph} (hg : g.WF) (es : List (Int × Int × Attrs)) (x y : Int) :
+    y ∈ (g.addEdgesFromData es).nbrs x ↔ y ∈ g.nbrs x ∨ ∃ e ∈ es, EMatch e x y := by
+  rw [mem_nbrs_iff, mem_nbrs_iff, edgeAttrs_addEdgesFromData hg, edgeAccum_isSome]
+
+theorem mem_nbrs_addEdgesFrom {g : Graph} (hg : g.WF) (es : List (Int × Int)) (x y : Int) :
+    y ∈ (g.addEdgesFrom es).nbrs x ↔ y ∈ g.nbrs x ∨ (x, y) ∈ es ∨ (y, x) ∈ es := by
+  rw [addEdgesFrom_eq, mem_nbrs_addEdgesFromData hg]
+  apply or_congr_right
+  constructor
+  · rintro ⟨e, he, hm⟩
+    obtain ⟨p, hp, rfl⟩ := List.mem_map.1 he
+    rcases hm with ⟨rfl, rfl⟩ | ⟨rfl, rfl⟩
+    · exact Or.inl hp
+    · exact Or.inr hp
+  · rintro (h | h)
+    · exact ⟨_, List.mem_map.2 ⟨_, h, rfl⟩, Or.inl ⟨rfl, rfl⟩⟩
+    · exact ⟨_, List.mem_map.2 ⟨_, h, rfl⟩, Or.inr ⟨rfl, rfl⟩⟩
+
+theorem mem_nodeList_addEdgesFrom (g : Graph) (es : List (Int × Int)) (x : Int) :
+    x ∈ (g.addEdgesFrom es).nodeList ↔ x ∈ g.nodeList ∨ ∃ e ∈ es, x = e.1 ∨ x = e.2 := by
+  rw [addEdgesFrom_eq, mem_nodeList_addEdgesFromData]
+  simp
+
+theorem node_addEdgesFrom_of_mem {g : Graph} (es : List (Int × Int))
+    (h : ∀ e ∈ es, e.1 ∈ g.nodeList ∧ e.2 ∈ g.nodeList) : (g.addEdgesFrom es).node = g.node := by
+  rw [addEdgesFrom_eq]
+  apply node_addEdgesFromData_of_mem
+  intro e he
+  obtain ⟨p, hp, rfl⟩ := List.mem_map.1 he
+  exact h p hp
+
+/-- a fresh bond gets exactly the given (well-formed) data -/
+theorem newEdgeData_of_none {g : Graph} {u v : Int} (h : g.edgeAttrs u v = none) {a : Attrs} (ha : a.WF) :
+    g.newEdgeData u v a = a := by
+  unfold newEdgeData; rw [h]; exact Dict.empty_update ha
+
+/-- relabelling by the identity on the nodes (e.g. `convert_node_labels_to_integers` of a graph whose
+nodes already are `0..n-1` in order) gives the same labelled graph -/
+theorem same_convertNodeLabelsToIntegers_of_range {g : Graph} (hg : g.WF)
+    (hr : g.nodeList = range g.numberOfNodes) :
+    Same g g.convertNodeLabelsToIntegers ∧ g.convertNodeLabelsToIntegers.nodeList = g.nodeList ∧
+    ∀ n, g.convertNodeLabelsToIntegers.node.get? n = g.node.get? n := by
+  obtain ⟨h1, h2, h3, h4⟩ := convertNodeLabelsToIntegers_spec hg
+  have hid : ∀ n ∈ g.nodeList, Int.ofNat (g.nodeList.idxOf n) = n := by
+    intro n hn
+    have hlt := List.idxOf_lt_length_of_mem hn
+    have e := List.getElem_idxOf hlt
+    have key : ∀ (l : List Int), l = range g.numberOfNodes → ∀ j (h : j < l.length), l[j] = Int.ofNat j := by
+      rintro _ rfl j h; simp [range]
+    exact (key _ hr _ hlt).symm.trans e
+  refine ⟨h3.congr hg hid, by rw [h2, ← hr], fun n => ?_⟩
+  by_cases hn : n ∈ g.nodeList
+  · rw [← h4 n hn, hid n hn]
+  · rw [(Dict.get?_eq_none_iff _ _).2 hn, Dict.get?_eq_none_iff]
+    show n ∉ g.convertNodeLabelsToIntegers.nodeList
+    rw [h2, ← hr]; exact hn
+
+end Graph
+
 end Py
